@@ -366,7 +366,7 @@ def run_shard(spec, ctx, acc):
                 continue
             kid, typ = db()[name]
             case = {"kind": "lookup", "name": name}
-            core.handle(acc, check(case), case, known)
+            core.handle(acc, core.checked(check, case), case, known)
             # every single-bit neighbour of the key ID (documented or not)
             for bit in range(32):
                 c2 = {"kind": "keyid", "kid": kid ^ (1 << bit)}
@@ -407,7 +407,7 @@ def run_shard(spec, ctx, acc):
         for helper in ("set", "del", "poll"):
             for n in (0, 1, 63, 64, 65, 66, 200):
                 case = {"kind": "limit", "helper": helper, "n": n}
-                core.handle(acc, check(case), case, known)
+                core.handle(acc, core.checked(check, case), case, known)
         return
     # lists of distinct keys, known and unknown
     def item(name):
